@@ -361,7 +361,14 @@ def run_bind(case, cmd=None):
     eui = t.EUI64.deserialize(unhx(case["eui"]))[0]
     det = {"requests": 0}
     try:
-        res = loop().run_until_complete(meth(zdo, eui, t.uint8_t(case["ep"]), t.uint16_t(case["cluster"]), dst))
+        if case.get("via") == "request":
+            # the generic entry point: zdo.request(ZDOCmd.Bind_req / Unbind_req, ...) dispatches to the handlers
+            import zigpy.zdo.types as zdo_t
+            zcmd = zdo_t.ZDOCmd.Bind_req if cmd == "bind" else zdo_t.ZDOCmd.Unbind_req
+            coro = M.ZDO.request(zdo, zcmd, eui, t.uint8_t(case["ep"]), t.uint16_t(case["cluster"]), dst)
+        else:
+            coro = meth(zdo, eui, t.uint8_t(case["ep"]), t.uint16_t(case["cluster"]), dst)
+        res = loop().run_until_complete(coro)
     except Exception as e:  # noqa
         det["exception"] = "%s: %s" % (type(e).__name__, str(e)[:200])
         det["requests"] = len(api.reqs)
@@ -431,6 +438,8 @@ def bind_monitor(case, obs, det):
     # bind and unbind encoded alike apart from the command
     other = "unbind" if case["cmd"] == "bind" else "bind"
     obs2, det2 = run_bind(case, cmd=other)
+    if det2.get("cmd") is not None and det2["cmd"] != other:
+        return "%s request (the same arguments%s) sent as %s" % (other, ", through zdo.request()" if case.get("via") == "request" else "", det2["cmd"])
     if "enc" in det2 and det2["enc"] != enc:
         return "bind and unbind encode the same request differently: %s=%s %s=%s" % (case["cmd"], hx(enc), other, hx(det2["enc"]))
     return None
@@ -626,7 +635,7 @@ def gen_bind(rng):
     st = 0 if rng.random() < 0.5 else rng.choice([1, 0x80, 0x84, 0x88, 0x8C, 0xFE, 0xFF, rng.randrange(1, 256)])
     return {"kind": "bind", "cmd": "bind", "tsn": rng.randrange(255), "dev_nwk": pick(rng, B16, 0x10000), "eui": hx(rbytes(rng, 8)),
             "ep": pick(rng, B8, 256), "cluster": pick(rng, B16, 0x10000), "mode": mode, "ma_nwk": nwk, "ma_ieee": ieee, "ma_ep": epd,
-            "status": st}
+            "status": st, "via": "request" if rng.random() < 0.4 else "direct"}
 
 
 # --------------------------------------------------------------------------------------------------
